@@ -317,6 +317,194 @@ def setdata_tie(ctx, nhist, nops):
             ctx.count('tie:setdata-states-compared')
 
 
+# ---------------------------------------------------------------- part C: lookups by a unique / composite key (Model/KeyLookup.lean)
+
+KEY_STATUS = {'created': 'created', 'loaded': 'loaded', 'modified': 'modified', 'inserted': 'saved', 'updated': 'saved',
+              'marked_to_delete': 'marked_to_delete', 'deleted': 'gone', 'cancelled': 'gone'}
+KEY_ERRORS = ('TransactionIntegrityError', 'IntegrityError', 'UnexpectedError', 'CommitException')
+
+
+def key_history(ctx, rng, composite, nops):
+    """one entity with an integer primary key and one secondary key; random calls over several sessions; after every call the key
+    index of the real cache, the statuses, key values and write bits of the cached objects, and after flushes the table, are compared
+    with the model; every lookup is compared with what the program has (oracle)"""
+    db = Database()
+    d = {'id': PrimaryKey(int)}
+    if composite:
+        d['c0'] = Optional(int); d['c1'] = Optional(int)
+        d['_indexes_'] = [core.Index(d['c0'], d['c1'], is_pk=False, is_unique=True)]
+    else: d['u'] = Optional(int, unique=True)
+    E = type('E', (db.Entity,), d)
+    db.bind('sqlite', ':memory:')
+    db.generate_mapping(create_tables=True)
+    comps = ['c0', 'c1'] if composite else ['u']
+    attrs = [getattr(E, n) for n in comps]
+    ikey = tuple(attrs) if composite else attrs[0]
+    def kv_of(vals): return None if any(v is None for v in vals) else list(vals)
+    def rand_comp(): return rng.choice([None, 0, 1, 1, 2, 2, 3])
+    try:
+        init = {}
+        with db_session:
+            used = set()
+            for i in range(1, 5):
+                vals = [rand_comp() for _ in comps]
+                k = kv_of(vals)
+                if k is not None and tuple(k) in used: vals = [None for _ in comps]; k = None
+                if k is not None: used.add(tuple(k))
+                E(id=i, **dict(zip(comps, vals))); init[i] = vals
+        have = dict(init)                 # what the program has: id -> component values
+        committed = dict(init)
+        ops, mops, checks, findings = [], [], [], []
+        held = {}
+        nxt = 5
+        db_session.__enter__()
+        try:
+            def cache(): return core.local.db2cache.get(db)
+            def snapshot(after_flush):
+                c = cache()
+                snap = {'objs': [], 'idx': [], 'rows': None, 'modified': bool(c.modified) if c is not None and c.is_alive else False}
+                if c is None or not c.is_alive: return snap
+                for obj in c.objects:
+                    vals = [obj._vals_.get(a) for a in attrs]
+                    wb = bool(obj._wbits_) and any(obj._wbits_ & obj._bits_.get(a, 0) for a in attrs)
+                    snap['objs'].append([obj._pkval_, KEY_STATUS[obj._status_], kv_of(vals), wb])
+                snap['objs'].sort(key=lambda x: x[0])
+                for k, o in c.indexes[ikey].items(): snap['idx'].append([list(k) if composite else [k], o._pkval_])
+                snap['idx'].sort()
+                if after_flush and c.connection is not None:
+                    rows = c.connection.execute('SELECT id, %s FROM "E" ORDER BY id' % ', '.join(comps)).fetchall()
+                    snap['rows'] = [[r[0], kv_of(list(r[1:]))] for r in rows]
+                return snap
+            def call(fn):
+                try: return fn(), None
+                except Exception as e: return None, type(e).__name__
+            for step in range(nops):
+                k = rng.choice(['create', 'create', 'set', 'set', 'set', 'delete', 'flush', 'load', 'get', 'get', 'get', 'get', 'new_session'])
+                mop = None; exp_out = None; after_flush = False; err = None
+                if k == 'create':
+                    i = nxt if rng.random() < 0.9 else rng.randrange(1, nxt)
+                    vals = [rand_comp() for _ in comps]
+                    r, err = call(lambda: E(id=i, **dict(zip(comps, vals))))
+                    mop = {'k': 'create', 'i': i, 'kv': kv_of(vals)}
+                    if err is None:
+                        held[i] = r; have[i] = vals; nxt = max(nxt, i + 1); exp_out = 'ok'
+                    elif err == 'CacheIndexError': exp_out = 'refused'
+                elif k in ('set', 'delete'):
+                    cands = [i for i in held if held[i]._status_ not in core.del_statuses]
+                    if not cands: continue
+                    i = rng.choice(cands)
+                    if k == 'delete':
+                        _, err = call(held[i].delete); mop = {'k': 'delete', 'i': i}
+                        if err is None: have.pop(i, None); exp_out = 'ok'
+                    else:
+                        j = rng.randrange(len(comps)); v = rand_comp()
+                        vals = list(have[i]); vals[j] = v
+                        _, err = call(lambda: setattr(held[i], comps[j], v))
+                        mop = {'k': 'setKey', 'i': i, 'kv': kv_of(vals)}
+                        if err is None: have[i] = vals; exp_out = 'ok'
+                        elif err == 'CacheIndexError': exp_out = 'refused'
+                elif k == 'flush':
+                    _, err = call(flush); mop = {'k': 'flush'}; after_flush = True
+                    if err is None: exp_out = 'ok'
+                elif k == 'new_session':
+                    _, err = call(commit); mop = {'k': 'newSession'}
+                    if err is None:
+                        db_session.__exit__(None, None, None); core.local.db_session = None; core.local.db_context_counter = 0
+                        db_session.__enter__(); held = {}; committed = dict(have); exp_out = 'ok'
+                elif k == 'load':
+                    i = rng.randrange(1, nxt + 1)
+                    r, err = call(lambda: E[i]); mop = {'k': 'loadPk', 'i': i}; after_flush = True
+                    if err == 'ObjectNotFound': exp_out = 'notFound'; err = None
+                    elif err is None: held[i] = r; exp_out = 'found:%d' % i
+                    want = 'found:%d' % i if i in have else 'notFound'
+                    if err is None and exp_out != want:
+                        findings.append({'form': 'getitem', 'got': exp_out, 'expected': want, 'ops': ops + [mop]})
+                else:
+                    vals = [rng.choice([0, 1, 2, 3]) for _ in comps]
+                    r, err = call(lambda: E.get(**dict(zip(comps, vals)))); mop = {'k': 'getBy', 'v': vals}; after_flush = True
+                    if err is None:
+                        exp_out = 'notFound' if r is None else 'found:%d' % r._pkval_
+                        if r is not None: held[r._pkval_] = r
+                        match = sorted(i for i, hv in have.items() if kv_of(hv) == vals)
+                        want = 'found:%d' % match[0] if match else 'notFound'
+                        if len(match) > 1:
+                            # the program holds two objects with one key (the constructor / assignment could not see the clash with a row that is
+                            # not loaded; the flush will be refused): either of them is "what the program has"
+                            ctx.count('key:lookup-with-an-undetected-key-clash-pending')
+                            if exp_out in ['found:%d' % m for m in match]: want = exp_out
+                        if exp_out != want:
+                            findings.append({'form': 'get-composite-key' if composite else 'get-unique', 'got': exp_out, 'expected': want, 'ops': ops + [mop]})
+                ops.append(mop)
+                ctx.count('key:op:%s:%s' % (mop['k'], err or exp_out.split(':')[0]))
+                ctx.case({'key-model': 'composite' if composite else 'unique', 'i': step, 'op': mop}, nontrivial=True, kind='key-call')
+                if err is not None and exp_out is None:
+                    # a flush (explicit or implicit) failed loudly: the session is over
+                    mops.append(mop); checks.append({'out': 'error', 'err': err, 'snap': None}); break
+                mops.append(mop); checks.append({'out': exp_out, 'err': None, 'snap': snapshot(after_flush and cache() is not None and not cache().modified)})
+                if findings: break
+        finally:
+            try: db_session.__exit__(RuntimeError, RuntimeError('end'), None)
+            except Exception: pass
+            core.local.db_session = None; core.local.db_context_counter = 0
+        return {'composite': composite, 'init': [[i, kv_of(v)] for i, v in sorted(init.items())], 'ops': ops, 'mops': mops, 'checks': checks, 'findings': findings}
+    finally:
+        try: db.disconnect()
+        except Exception: pass
+
+
+def key_tie(ctx, nhist, nops):
+    rng = ctx.rng
+    batch = []
+    for h in range(nhist):
+        composite = rng.random() < 0.4
+        try: r = key_history(ctx, rng, composite, nops)
+        except Exception as e:
+            ctx.count('key:history-crashed:' + type(e).__name__); continue
+        ctx.count('key:history:' + ('composite' if composite else 'unique'))
+        for f in r['findings']:
+            ctx.violation('a lookup by key inside the session does not return what the program has',
+                          {'key-model': 'composite' if composite else 'unique', 'rows': r['init'], 'ops': f['ops']}, observed=f['got'], expected=f['expected'],
+                          key='%s:key-lookup' % f['form'])
+        batch.append(r)
+    if not ctx.driver.ok:
+        ctx.note('driver unavailable: the key-lookup correspondence is skipped'); return
+    outs = ctx.driver('C10', [{'op': 'run', 'model': 'key', 'ids': [i for i, _ in r['init']], 'rows': r['init'], 'ops': r['mops']} for r in batch])
+    for r, out in zip(batch, outs):
+        steps = out.get('steps')
+        inp = {'key-model': 'composite' if r['composite'] else 'unique', 'rows': r['init']}
+        if steps is None:
+            if 'unknown property' in str(out.get('driver_error')): raise RuntimeError('the shared driver executable was replaced while running: %r' % out)
+            ctx.divergence('driver error (key model)', dict(inp, ops=r['mops']), model=out); continue
+        for i, (st, chk) in enumerate(zip(steps, r['checks'])):
+            here = dict(inp, ops=r['mops'][:i + 1])
+            mout = st['out']
+            if not st.get('valid', True): ctx.count('key:model-op-under-a-primary-key-in-use')
+            if chk['out'] == 'error':
+                if not mout.startswith('error'):
+                    if chk['err'] in KEY_ERRORS:
+                        # the database checks its UNIQUE constraint after every statement, the model after the flush: a transient clash
+                        # (two objects exchanging / passing on a key) is refused by the real flush only
+                        ctx.count('key:history-cut:transient-unique-violation-inside-a-flush')
+                    else: ctx.divergence('the real call raised, the model did not', here, model=mout, impl=chk['err'])
+                else: ctx.count('key:tie:flush-refused-by-both:' + mout)
+                break
+            if mout != chk['out']:
+                ctx.divergence('outcome of %s differs (key model)' % r['mops'][i]['k'], here, model=mout, impl=chk['out']); break
+            sn = chk['snap']
+            mobjs = sorted([o for o in st['objs'] if o[1] != 'gone' or any(x[0] == o[0] for x in sn['objs'])], key=lambda x: x[0])
+            robjs = sn['objs']
+            if {o[0]: o for o in mobjs if o[1] != 'gone'} != {o[0]: o for o in robjs if o[1] != 'gone'}:
+                ctx.divergence('cached objects differ (key model)', here, model=mobjs, impl=robjs); break
+            if sorted(st['idx']) != sn['idx']:
+                ctx.divergence('key index differs', here, model=sorted(st['idx']), impl=sn['idx']); break
+            if sn['rows'] is not None and sorted(st['rows']) != sorted(sn['rows']):
+                ctx.divergence('table differs after a flush (key model)', here, model=st['rows'], impl=sn['rows']); break
+            if bool(st['modified']) and not sn['modified']:
+                ctx.divergence('cache.modified not set although the key model has pending changes', here, model=True, impl=False); break
+            ctx.count('tie:key-states-compared')
+            ctx.count('key:tie:outcome:%s:%s' % (r['mops'][i]['k'], mout.split(':')[0]))
+
+
 # ---------------------------------------------------------------- entry points
 
 def witness_delete_unloaded(ctx):
@@ -452,8 +640,9 @@ def regressions(ctx):
 
 def run(ctx):
     regressions(ctx)
-    setdata_tie(ctx, ctx.scale(120, 3000), ctx.scale(14, 20))
-    S.explore(ctx, 'C10', ctx.scale(220, 6000), ctx.scale(22, 30))
+    setdata_tie(ctx, ctx.scale(100, 2500), ctx.scale(14, 20))
+    key_tie(ctx, ctx.scale(100, 2500), ctx.scale(14, 20))
+    S.explore(ctx, 'C10', ctx.scale(200, 5000), ctx.scale(22, 30))
 
 
 def replay(ctx, data):
